@@ -59,14 +59,18 @@ fn round(seed_rng: &mut Rng, round_no: u64) -> Value {
     // hundreds of items, so that batches of several hundred items are handed over while sends race
     // with the hand-over (whatever the receiver does only for large batches is reached)
     let big = round_no % 50 == 7;
-    let cap = if big { 4096 } else { 1 + seed_rng.below(4) as usize };
+    // ... and every 25th a "duel": a tiny capacity, a slow processor and three senders doing nothing but plain sends, so
+    // that the queue is full nearly all the time and truncating sends race with each other (whatever a truncation does
+    // outside one critical section is reached)
+    let duel = round_no % 25 == 13;
+    let cap = if big { 4096 } else if duel { 1 + (round_no / 25 % 2) as usize } else { 1 + seed_rng.below(4) as usize };
     let use_tokio = seed_rng.below(2) == 0;
-    let fault_pct = if big { 0 } else { [0u64, 20, 50][seed_rng.below(3) as usize] };
-    let nsenders = if big { 2 } else { 2 + seed_rng.below(2) };
+    let fault_pct = if big || duel { 0 } else { [0u64, 20, 50][seed_rng.below(3) as usize] };
+    let nsenders = if big { 2 } else if duel { 3 } else { 2 + seed_rng.below(2) };
     let (sender, receiver) = emit_batcher::bounded::<Vec<i64>>(cap);
     let sender = Arc::new(sender);
     let prng = Arc::new(Mutex::new(Rng(seed_rng.next())));
-    let slow = big || seed_rng.below(3) == 0;
+    let slow = big || duel || seed_rng.below(3) == 0;
     let slow_us: u64 = if big { 3000 } else { 200 };
 
     let handle = if use_tokio {
@@ -116,17 +120,17 @@ fn round(seed_rng: &mut Rng, round_no: u64) -> Value {
     let mut threads = Vec::new();
     let mut desc = Vec::new();
     for s in 0..nsenders {
-        let nops = if big { 900 } else { 3 + seed_rng.below(5) };
+        let nops = if big { 900 } else if duel { 300 } else { 3 + seed_rng.below(5) };
         let mut ops = Vec::new();
         for _ in 0..nops {
-            ops.push(if big { 0 } else { seed_rng.below(9) });
+            ops.push(if big || duel { 0 } else { seed_rng.below(9) });
         }
-        desc.push(if big { json!({"thread": s, "sends": nops}) } else { json!({"thread": s, "ops": ops}) });
+        desc.push(if big || duel { json!({"thread": s, "sends": nops}) } else { json!({"thread": s, "ops": ops}) });
         let (sender, rec) = (sender.clone(), rec.clone());
         let mut trng = Rng(seed_rng.next());
         threads.push(std::thread::spawn(move || {
             for (k, op) in ops.iter().enumerate() {
-                let item = (s as i64 + 1) * if big { 1000 } else { 100 } + k as i64;
+                let item = (s as i64 + 1) * if big || duel { 1000 } else { 100 } + k as i64;
                 set_current_item(item);
                 if *op <= 5 || *op == 8 {
                     rec.log(json!({"ev": "SendCall", "item": item, "kind": match op { 0 | 1 | 2 | 8 => "send", 3 => "try", _ => "block" }}));
@@ -134,7 +138,7 @@ fn round(seed_rng: &mut Rng, round_no: u64) -> Value {
                 if big && k % 50 == 49 {
                     std::thread::sleep(Duration::from_micros(300));
                 }
-                for _ in 0..if big { 0 } else { trng.below(3) } {
+                for _ in 0..if big || duel { 0 } else { trng.below(3) } {
                     std::thread::yield_now();
                 }
                 let res = |r: Result<(), BatchError<i64>>| match r {
@@ -234,7 +238,7 @@ fn round(seed_rng: &mut Rng, round_no: u64) -> Value {
         emit_batcher::verif::install(None);
         let trace = rec.finish(cap, false);
         return json!({"trace": trace, "hang": true, "what": what, "leaked": true,
-               "case": {"round": round_no, "big": big, "cap": cap, "tokio": use_tokio, "fault_pct": fault_pct, "slow": slow, "threads": desc}});
+               "case": {"round": round_no, "big": big, "duel": duel, "cap": cap, "tokio": use_tokio, "fault_pct": fault_pct, "slow": slow, "threads": desc}});
     }
     // either a final flush, or a last send immediately followed by the drop of the sender: in both
     // cases the worker must deliver what is queued, fire what is registered and terminate
@@ -285,7 +289,7 @@ fn round(seed_rng: &mut Rng, round_no: u64) -> Value {
     emit_batcher::verif::install(None);
     let trace = rec.finish(cap, !hang);
     json!({"trace": trace, "hang": hang, "what": what,
-           "case": {"round": round_no, "big": big, "cap": cap, "tokio": use_tokio, "fault_pct": fault_pct, "slow": slow, "threads": desc}})
+           "case": {"round": round_no, "big": big, "duel": duel, "cap": cap, "tokio": use_tokio, "fault_pct": fault_pct, "slow": slow, "threads": desc}})
 }
 
 /// blocking entry points from every calling context (C08): they must return, not panic or hang
